@@ -162,12 +162,24 @@ def to_naive(us):
     return (EP + dt.timedelta(microseconds=us)).replace(tzinfo=None)
 
 
+def cron_offset_of(e):
+    """the schedule's cron_offset: absent, an IANA zone name (str) or a timedelta"""
+    off = e.get("off")
+    if not off:
+        return None
+    if off["kind"] == "zone":
+        return off["zone"]
+    return dt.timedelta(microseconds=off["us"])
+
+
 def make_sched(i, e):
     kw = dict(task_name="task_%d" % i, labels={"src": i}, args=[e["sid"]], kwargs={}, schedule_id="s%d" % e["sid"])
     if e["kind"] == "one":
         kw["time"] = to_naive(e["T"]) if e.get("naive", True) else EP + dt.timedelta(microseconds=e["T"])
     else:
         kw["cron"] = e["cron"]
+        if e.get("off"):
+            kw["cron_offset"] = cron_offset_of(e)
     return ScheduledTask(**kw)
 
 
@@ -229,6 +241,8 @@ class Lab(Common, LabelScheduleSource):
             d["time"] = to_naive(e["T"])
         else:
             d["cron"] = e["cron"]
+            if e.get("off"):
+                d["cron_offset"] = cron_offset_of(e)
         return d
 
     def add(self, e):
